@@ -25,7 +25,7 @@ import (
 
 // Ops a controller can attempt.
 var Ops = []string{"Get", "GetUncached", "List", "ListUncached", "ContextWithTeardown", "Create", "Update", "Modify", "ModifyWithResult",
-	"Teardown", "Destroy", "AddFinalizer", "RemoveFinalizer", "CleanupOutputs"}
+	"Teardown", "Destroy", "AddFinalizer", "RemoveFinalizer", "CleanupOutputs", "UpdateForged"}
 
 // Relations between the target (n1, TT, x) and the controller's declarations.
 var Relations = []string{"output-excl", "output-shared", "in-weak-kind", "in-weak-id", "in-weak-otherid", "in-strong-kind", "in-strong-id",
@@ -330,6 +330,24 @@ func attempt(ctx context.Context, r rw, p Plan) (res attemptResult) {
 		if g, err := r.Get(ctx, ptr); err == nil {
 			obj = g
 			obj.(*hres.R).SetValue("updated") //nolint:forcetypeassert
+		}
+
+		res.err = r.Update(ctx, obj)
+	case "UpdateForged":
+		// an object the controller did not read: built from scratch (as kept from an earlier incarnation of the
+		// resource that the controller owned), carrying the controller's own name as owner and the current version
+		obj := hres.New("n1", tt, tid, "forged")
+		obj.Metadata().SetVersion(resource.VersionUndefined.Next())
+		obj.Metadata().SetPhase(resource.Phase(p.Phase))
+
+		if p.Fin {
+			obj.Metadata().Finalizers().Add("held")
+		}
+
+		if err := obj.Metadata().SetOwner(me); err != nil {
+			res.err = err
+
+			return res
 		}
 
 		res.err = r.Update(ctx, obj)
